@@ -71,3 +71,36 @@ Example pass_examples :
   optimize (WL [VOp OOr; VInt 0; VStr ""]) = VBool false /\
   optimize (WL [VOp OAdd; VInt 1; WL [VOp OMul; VInt 2; VInt 3]]) = VInt 7.
 Proof. vm_compute. repeat split; reflexivity. Qed.
+
+(** * T-opt for a fragment, congruence included (proofs/OptRo.v)
+    [ron e]: e is built from integer/boolean/string literals, names, + - * ** mod, comparison, logic (! && ||),
+    bitwise operators, slice, if and do, nested arbitrarily (no float literals, no division).  For every such
+    expression: if the unoptimised expression completes, the optimised one completes with the same value and the
+    same final state.  The proof combines, by induction on the fuel: the pass stays inside the fragment; the
+    operators use their operands only through the evaluator (one congruence lemma per operator); every folding
+    step is sound for an evaluator that returns literals unchanged (the rule equations above); and fuel
+    monotonicity (C06) for the rules that replace a form by one of its operands. *)
+From WalModel.proofs Require OptRo.
+Theorem optimize_preserves_completed_evaluations : forall lf f e st v st',
+  OptRo.ron e = true -> optimize_modelled e = true ->
+  eval lf f e st = Ok v st' -> eval lf (S f) (optimize e) st = Ok v st'.
+Proof. exact OptRo.optimize_preserves_ro. Qed.
+Print Assumptions optimize_preserves_completed_evaluations.
+
+Theorem the_fragment_is : forall e, OptRo.ron e =
+  match e with
+  | VInt _ | VBool _ | VStr _ | VSym _ _ => true
+  | VList _ (VOp o :: args) => OptRo.ron_op o && forallb OptRo.ron args
+  | _ => false
+  end.
+Proof. intros e. destruct e; reflexivity. Qed.
+Print Assumptions the_fragment_is.
+
+Theorem the_pass_stays_in_the_fragment : forall e e', OptRo.ron e = true -> optimize_opt e = Some e' -> OptRo.ron e' = true.
+Proof. exact OptRo.optimize_ron. Qed.
+Print Assumptions the_pass_stays_in_the_fragment.
+
+Example a_nested_fold :
+  optimize (WL [VOp OAdd; VSym "x" None; WL [VOp OIf; WL [VOp OAnd; VInt 1; VInt 2]; WL [VOp OMul; VInt 3; VInt 4]; VSym "y" None]])
+  = WL [VOp OAdd; VSym "x" None; VInt 12].
+Proof. reflexivity. Qed.
